@@ -492,7 +492,7 @@ def selection_traces(R, tier, part="all"):
                     # reuse: the SAME step object has already served another population in the same generation
                     # pre: the individuals already carry a fitness for ANOTHER (conflicting) problem that is still alive
                     for target in range(1, len(vals) + 1):
-                        if len(vals) ** (tsize * target) > (3000 if quick else 9000):
+                        if len(vals) ** (tsize * target) > (3000 if quick else 5000):
                             continue
                         if pre and (tsize < 2 or len(vals) < 2):
                             continue
@@ -620,7 +620,7 @@ def selection_traces(R, tier, part="all"):
                         return events
 
                     try:
-                        for script, s, res in explore(run, cap=64, max_leaves=(3000 if quick else 6000)):
+                        for script, s, res in explore(run, cap=64, max_leaves=(3000 if quick else 3500)):
                             if isinstance(res, Exception):
                                 res = [{"e": "selend", "exc": exc_name(res)}]
                             traces.append((f"lex/{pi}/{mi}/{int(eps)}/{target}/{leaves}", res, {"k": "selection"}))
